@@ -205,6 +205,31 @@ func abortClass(stderr string) (class, detail string) {
 			}
 		}
 	}
+	isFrame := func(l string) bool {
+		return l != "" && !strings.HasPrefix(l, "\t") && strings.Contains(l, "(") && !strings.HasPrefix(l, "goroutine ")
+	}
+	// a Go panic (not a fatal runtime error such as stack exhaustion, whose top frame is
+	// whatever happened to run last) raised by the harness itself - generators, oracles - is
+	// a bug of the machinery, never a verdict about the library
+	if strings.HasPrefix(first, "panic:") {
+		inTrace := false
+		for _, l := range lines {
+			if strings.HasPrefix(l, "goroutine ") {
+				inTrace = true
+				continue
+			}
+			if !inTrace || !isFrame(l) {
+				continue
+			}
+			if strings.HasPrefix(l, "panic(") || strings.HasPrefix(l, "runtime.") || strings.HasPrefix(l, "runtime/") {
+				continue
+			}
+			if strings.Contains(l, "/zzharness/") || strings.Contains(l, "/zzsimrt.") {
+				return "harness-bug", trimStr(first+" in "+l, 300)
+			}
+			break
+		}
+	}
 	frame := "?"
 	for _, l := range lines {
 		if (strings.HasPrefix(l, "github.com/tsawler/tabula/") || strings.HasPrefix(l, "github.com/tsawler/tabula.")) &&
@@ -218,25 +243,6 @@ func abortClass(stderr string) (class, detail string) {
 			frame = strings.ReplaceAll(strings.ReplaceAll(frame, "(*", ""), ")", "")
 			break
 		}
-	}
-	// a panic raised by the harness itself (generators, oracles) is a bug of the
-	// machinery, never a verdict about the library
-	inTrace := false
-	for _, l := range lines {
-		if strings.HasPrefix(l, "goroutine ") {
-			inTrace = true
-			continue
-		}
-		if !inTrace || l == "" || strings.HasPrefix(l, "\t") || !strings.Contains(l, "(") {
-			continue
-		}
-		if strings.HasPrefix(l, "panic(") || strings.HasPrefix(l, "runtime.") || strings.HasPrefix(l, "runtime/") {
-			continue
-		}
-		if strings.Contains(l, "/zzharness/") || strings.Contains(l, "/zzsimrt.") {
-			return "harness-bug", trimStr(first+" in "+l, 300)
-		}
-		break
 	}
 	kind := "abort"
 	if strings.Contains(first, "stack") {
